@@ -471,6 +471,7 @@ def run_check(plugin, tier, seed, replay=None):
     for payload, found in violations:
         payload = dict(payload, property=prop, seed=seed, tier=tier)
         path = write_replay(prop, payload)
+        log('violation detail:', json.dumps(payload, default=str)[:2500])
         print(f'VIOLATION property={prop} replay={path}' + ('' if found else ' no-failing-input-found'))
         rc = 1
     if rc == 0:
